@@ -16,10 +16,14 @@
 //	           n instances (startup once(n)); shared 1 = one RPS schedule for the pool, 0 = per instance;
 //	           ammo = number of ammo (-1 endless); tokens = once(tokens) (-1 = unlimited 1h schedule);
 //	           fault = none|prov|aggr|gun|warm|sched|bind|panic|provnil|aggrnil at position k, or a REAL provider:
-//	           dopen|dopenlate|ddecode|dok|jsonbad|httpbad (see realProvider), gj-<poison>-<passes>-<limit>-<coe>-<maxsize>
+//	           dopen|dopenlate|ddecode|dok|dnew|dfile|jsonbad|jsonio|httpbad (see realProvider), scan-<poison> (see
+//	           scanProvider), gj-<poison>-<passes>-<limit>-<coe>-<maxsize>
 //	           a REAL aggregator: eopen|eenc|eflush|eclose|eencclose|eok (see realaggr.go); the real grpc gun: gw-... (see grpcwarm.go);
 //	           (the real grpc/json provider on k good lines, a broken element, `ammo` good lines; gate 1 = short reads; see gjPlan);
 //	           optional 9th field: the VALUE of the prov/aggr error (plain|wdeadline|wcancel|fmtcancel|nettimeout|joined);
+//	           optional later fields: slow<ms> (provider / aggregator take that long to wind down), ss<ms> (the instances
+//	           are started one every <ms> milliseconds instead of all at once: the pool can run out of ammo / schedule
+//	           while the start loop is still at work);
 //	           gate 1 = provider/aggregator fail only once their context is cancelled
 //	           ("after all instances finished"); ctxret 1 = provider/aggregator return ctx.Err() on cancel.
 //
@@ -38,6 +42,7 @@
 package main
 
 import (
+	"bufio"
 	"context"
 	"errors"
 	"fmt"
@@ -117,6 +122,7 @@ type poolPlan struct {
 	ctxret bool
 	ev     string // the VALUE of the provider/aggregator error: plain|wdeadline|wcancel|fmtcancel|nettimeout|joined
 	slow   int    // milliseconds the provider / aggregator take to wind down once their context is done
+	ss     int      // milliseconds between two instance starts (0: all at once, startup once(n))
 	pg     plugPlan // the gun / schedule factory is built by the real plugin registry (fault pg-...)
 }
 
@@ -129,6 +135,11 @@ func parsePool(s string) poolPlan {
 	pl := poolPlan{n: at(0), shared: f[1] == "1", ammo: at(2), tokens: at(3), fault: f[4], k: at(5), gate: f[6] == "1", ctxret: f[7] == "1", ev: "plain"}
 	if len(f) > 8 {
 		pl.ev = f[8]
+	}
+	for _, x := range f[8:] {
+		if strings.HasPrefix(x, "ss") {
+			pl.ss, _ = strconv.Atoi(x[2:])
+		}
 	}
 	pl.pg, _ = parsePG(pl.fault)
 	if len(f) > 9 && strings.HasPrefix(f[9], "slow") {
@@ -260,6 +271,49 @@ func (f failingSource) OpenSource() (io.ReadCloser, error) {
 	return nil, errOpen
 }
 
+// missingFs reports (ground truth) that the ammo file could not be opened.
+type missingFs struct {
+	afero.Fs
+	pm *poolMocks
+}
+
+func (m missingFs) Open(name string) (afero.File, error) {
+	f, err := m.Fs.Open(name)
+	if err != nil {
+		m.pm.fault("prov")
+	}
+	return f, err
+}
+
+// failingReadSource hands out data and then fails every Read (an i/o error, not the end of the data).
+type failingReadSource struct {
+	data string
+	pm   *poolMocks
+}
+
+type failingReader struct {
+	r    *strings.Reader
+	pm   *poolMocks
+	said bool
+}
+
+func (f *failingReader) Read(b []byte) (int, error) {
+	if f.r.Len() > 0 {
+		return f.r.Read(b)
+	}
+	if !f.said {
+		f.said = true
+		f.pm.fault("prov")
+	}
+	return 0, errIO
+}
+
+func (f *failingReader) Close() error { return nil }
+
+func (f failingReadSource) OpenSource() (io.ReadCloser, error) {
+	return &failingReader{r: strings.NewReader(f.data), pm: f.pm}, nil
+}
+
 type countingDecoder struct {
 	n      int
 	good   int  // items decoded fine
@@ -336,12 +390,21 @@ type poisonFile struct {
 	handed  int64 // offset after which it counts as handed over (long, json)
 	said    bool  // reported in this pass
 	chunked bool  // hand the data out in small pieces (reads end at arbitrary places)
+	asFault bool  // the broken element is a failure of the provider whatever its configuration: logged as <p>.!prov
+}
+
+func (f *poisonFile) say() {
+	if f.asFault {
+		f.pm.fault("prov")
+		return
+	}
+	f.pm.rs.log.Info("verif-src", zap.Int("p", f.pm.idx))
 }
 
 func (f *poisonFile) Read(b []byte) (int, error) {
 	if f.kind == "io" {
 		if f.off >= f.at {
-			f.pm.rs.log.Info("verif-src", zap.Int("p", f.pm.idx))
+			f.say()
 			return 0, errIO
 		}
 		if int64(len(b)) > f.at-f.off {
@@ -355,7 +418,7 @@ func (f *poisonFile) Read(b []byte) (int, error) {
 	f.off += int64(n)
 	if (f.kind == "long" || f.kind == "json") && !f.said && f.off >= f.handed {
 		f.said = true
-		f.pm.rs.log.Info("verif-src", zap.Int("p", f.pm.idx))
+		f.say()
 	}
 	return n, err
 }
@@ -411,6 +474,64 @@ func gjProvider(pm *poolMocks, pl poolPlan, g gjPlan) core.Provider {
 	return grpcjson.NewProvider(fs, conf)
 }
 
+// ---- provider.DecodeProvider on provider.NewScanDecoder (a line scanner + a chunk decoder) ----
+
+// lineChunkDecoder: lines starting with # carry no ammo (headers), a line starting with "bad" cannot be decoded,
+// every other line is one ammo.
+type lineChunkDecoder struct{ pm *poolMocks }
+
+func (d lineChunkDecoder) DecodeChunk(chunk []byte, _ core.Ammo) error {
+	switch {
+	case len(chunk) == 0 || chunk[0] == '#':
+		return provider.ErrNoAmmoDecoded
+	case strings.HasPrefix(string(chunk), "bad"):
+		d.pm.fault("prov")
+		return errDecode
+	}
+	return nil
+}
+
+// scanProvider: fault scan-<poison> (none | io | long | bad): a file of a header line, k ammo lines (a header line in
+// between), the broken element, `ammo` more ammo lines, read once through bufio.Scanner + lineChunkDecoder.
+func scanProvider(pm *poolMocks, pl poolPlan, poison string) core.Provider {
+	var sb strings.Builder
+	sb.WriteString("# header\n")
+	for i := 0; i < pl.k; i++ {
+		sb.WriteString("ammo\n")
+		if i == 0 {
+			sb.WriteString("# another header\n")
+		}
+	}
+	at := int64(sb.Len())
+	handed := at
+	switch poison {
+	case "long":
+		sb.WriteString(strings.Repeat("x", 70*1024) + "\n")
+		handed = at + 64*1024
+	case "bad":
+		sb.WriteString("bad line\n")
+	}
+	if pl.ammo > 0 {
+		sb.WriteString(strings.Repeat("ammo\n", pl.ammo))
+	}
+	mem := afero.NewMemMapFs()
+	_ = afero.WriteFile(mem, "ammo.txt", []byte(sb.String()), 0o644)
+	kind := poison
+	if poison == "bad" || poison == "none" {
+		kind = "none" // the chunk decoder reports it / nothing is broken
+		handed = int64(sb.Len()) + 1
+	}
+	fs := poisonFs{Fs: mem, mk: func(f afero.File) afero.File {
+		return &poisonFile{File: f, pm: pm, kind: kind, at: at, handed: handed, chunked: pl.gate, asFault: true}
+	}}
+	dconf := provider.DefaultDecodeProviderConfig()
+	dconf.Passes = 1
+	dconf.Source = datasource.NewFile(fs, datasource.FileConfig{Path: "ammo.txt"})
+	return provider.NewDecodeProvider(func() core.Ammo { return &anAmmo{} }, func(_ core.ProviderDeps, r io.Reader) (provider.AmmoDecoder, error) {
+		return provider.NewScanDecoder(bufio.NewScanner(r), lineChunkDecoder{pm: pm}), nil
+	}, dconf)
+}
+
 type anAmmo struct {
 	A int `json:"a"`
 }
@@ -443,6 +564,20 @@ func realProvider(pm *poolMocks, pl poolPlan) core.Provider {
 	case "dok":
 		dconf.Source = datasource.NewString("x")
 		inner = provider.NewDecodeProvider(newAmmo, dec(&countingDecoder{good: pl.k}), dconf)
+	case "dnew": // the decoder cannot be constructed
+		dconf.Source = datasource.NewString("x")
+		inner = provider.NewDecodeProvider(newAmmo, func(core.ProviderDeps, io.Reader) (provider.AmmoDecoder, error) {
+			pm.fault("prov")
+			return nil, errDecode
+		}, dconf)
+	case "dfile": // datasource.NewFile on a file that is not there
+		dconf.Source = datasource.NewFile(missingFs{Fs: afero.NewMemMapFs(), pm: pm}, datasource.FileConfig{Path: "no-such-ammo"})
+		inner = provider.NewDecodeProvider(newAmmo, dec(&countingDecoder{}), dconf)
+	case "jsonio": // the JSON provider on a source whose Read fails after k objects
+		jc := provider.DefaultJSONProviderConfig()
+		jc.Decode.Passes = 1
+		jc.Decode.Source = failingReadSource{data: strings.Repeat("{\"a\":1}\n", pl.k), pm: pm}
+		inner = provider.NewJSONProvider(newAmmo, jc)
 	case "jsonbad":
 		jc := provider.DefaultJSONProviderConfig()
 		jc.Decode.Passes = 1
@@ -458,6 +593,10 @@ func realProvider(pm *poolMocks, pl poolPlan) core.Provider {
 		}
 		inner = p
 	default:
+		if strings.HasPrefix(pl.fault, "scan-") {
+			inner = scanProvider(pm, pl, pl.fault[5:])
+			break
+		}
 		g, ok := parseGJ(pl.fault)
 		if !ok {
 			return nil
@@ -949,6 +1088,9 @@ func runCase(line string) string {
 			RPSPerInstance:  !pl.shared,
 			StartupSchedule: schedule.NewOnce(int64(pl.n)),
 		}
+		if pl.ss > 0 && pl.n > 0 { // one instance every ss milliseconds
+			pc.StartupSchedule = schedule.NewConst(1000/float64(pl.ss), time.Duration(pl.n*pl.ss)*time.Millisecond)
+		}
 		gunFactory, schedFactory := pm.newGun, pm.newSchedule
 		switch pl.pg.what {
 		case "gun":
@@ -1094,7 +1236,7 @@ func runCase(line string) string {
 
 func poolStr(p poolPlan) string {
 	s := fmt.Sprintf("%d,%s,%d,%d,%s,%d,%s,%s", p.n, vh.B(p.shared), p.ammo, p.tokens, p.fault, p.k, vh.B(p.gate), vh.B(p.ctxret))
-	if (p.ev != "" && p.ev != "plain") || p.slow > 0 {
+	if (p.ev != "" && p.ev != "plain") || p.slow > 0 || p.ss > 0 {
 		ev := p.ev
 		if ev == "" {
 			ev = "plain"
@@ -1103,6 +1245,9 @@ func poolStr(p poolPlan) string {
 	}
 	if p.slow > 0 {
 		s += fmt.Sprintf(",slow%d", p.slow)
+	}
+	if p.ss > 0 {
+		s += fmt.Sprintf(",ss%d", p.ss)
 	}
 	return s
 }
@@ -1200,6 +1345,32 @@ func gen(r *vh.Rand, tier string) []string {
 				out = append(out, line)
 			}
 		}
+		// the instances are started one by one (every 3-6 ms): the pool runs out of ammo / its shared schedule finishes /
+		// something fails / the caller cancels while the start loop is still at work
+		for _, ft := range []string{"none", "none", "none", "none", "panic", "bind", "gun", "prov", "aggr"} {
+			p := poolPlan{n: r.Range(3, 5), shared: true, ammo: r.Range(1, 2), tokens: 8, fault: ft, ctxret: r.Bool(), ss: r.Range(3, 6)}
+			cp := "none"
+			switch ft {
+			case "none":
+				switch r.Intn(3) {
+				case 0: // the schedule finishes first
+					p.ammo, p.tokens = 8, r.Range(1, 2)
+				case 1:
+					cp = r.Pick([]string{"shoot1", "timed4000", "after"})
+				}
+			case "panic", "bind", "gun":
+				p.k = 1
+				p.ammo = 8
+			case "prov", "aggr":
+				p.k = r.Range(0, 1)
+				p.ammo = 8
+			}
+			line := "run " + cp + " " + poolStr(p)
+			if r.Chance(1, 3) {
+				line += " " + poolStr(healthy)
+			}
+			out = append(out, line)
+		}
 		// healthy runs of various shapes, ends by ammo or by schedule
 		for i := 0; i < 12; i++ {
 			p := poolPlan{n: r.Range(0, 5), shared: r.Bool(), ammo: r.Range(0, 12), tokens: r.Range(0, 8), fault: "none", ctxret: r.Bool()}
@@ -1241,11 +1412,27 @@ func gen(r *vh.Rand, tier string) []string {
 			out = append(out, "run none "+poolStr(poolPlan{n: 2, shared: true, ammo: -1, tokens: -1, fault: ft, ev: "wcancel"}))
 		}
 		// real providers as components
-		for _, ft := range []string{"dopen", "dopenlate", "ddecode", "dok", "jsonbad", "httpbad"} {
+		for _, ft := range []string{"dopen", "dopenlate", "ddecode", "dok", "jsonbad", "httpbad", "dnew", "dfile", "jsonio"} {
 			for _, k := range []int{0, 2} {
 				p := poolPlan{n: r.Range(1, 3), shared: r.Bool(), ammo: 0, tokens: r.Range(3, 6), fault: ft, k: k}
 				line := "run " + r.Pick([]string{"none", "none", "after"}) + " " + poolStr(p)
 				if r.Chance(1, 3) {
+					line += " " + poolStr(healthy)
+				}
+				out = append(out, line)
+			}
+		}
+		// provider.DecodeProvider on provider.NewScanDecoder (line scanner + chunk decoder): a read failure, an over-long
+		// line, a chunk that does not decode, at the start / in the middle / at the end of the file; and healthy files,
+		// where only the end of the file ends the pool (unlimited schedule)
+		for _, poison := range []string{"io", "long", "bad", "none", "none"} {
+			for _, k := range []int{0, r.Range(1, 4)} {
+				p := poolPlan{n: r.Range(1, 3), shared: r.Bool(), ammo: r.Range(0, 2), tokens: -1, fault: "scan-" + poison, k: k, gate: r.Bool()}
+				if poison == "none" && k+p.ammo == 0 {
+					p.ammo = 1
+				}
+				line := "run " + r.Pick([]string{"none", "none", "after"}) + " " + poolStr(p)
+				if r.Chance(1, 4) {
 					line += " " + poolStr(healthy)
 				}
 				out = append(out, line)
@@ -1361,8 +1548,14 @@ func gen(r *vh.Rand, tier string) []string {
 		gwCase("pre", "ok", "ok", []string{okSvc()}, 0)
 		// the REAL encoder aggregator as a component, on an encoder / data sink that fails before the first sample, at a
 		// sample mid-run, at the periodic or the final flush, at the close of the sink (the very end), or twice
-		for _, ft := range []string{"eopen", "eenc", "eenc", "eflush", "eflush", "eclose", "eencclose", "eencclose", "eok"} {
+		for _, ft := range []string{"eopen", "eenc", "eenc", "eflush", "eflush", "eclose", "eencclose", "eencclose", "eok",
+			"ecloser", "ecloser", "eokc", "eencd", "eencd"} {
 			p := poolPlan{n: r.Range(1, 3), shared: r.Bool(), ammo: r.Range(3, 8), tokens: r.Range(3, 6), fault: ft, k: r.Range(1, 3), gate: r.Bool(), ctxret: r.Bool()}
+			if ft == "eencd" { // the last sample of the run cannot be encoded: the pool ends by ammo after k shots
+				p.shared, p.tokens = true, 8
+				p.ammo = r.Range(2, 6)
+				p.k = p.ammo
+			}
 			line := "run " + r.Pick([]string{"none", "none", "none", "after"}) + " " + poolStr(p)
 			if r.Chance(1, 3) {
 				line += " " + poolStr(healthy)
